@@ -144,8 +144,9 @@ def build_lib(variant="asan", jobs=None, verbose=False):
         if not os.path.exists(obj):
             todo.append((src, obj))
     t0 = time.time()
-    with Lock("build-" + variant):
-        todo = [(s, o) for (s, o) in todo if not os.path.exists(o)]
+    with Lock("build"):
+        # (one lock for every variant: prune() below must not remove objects another build is about to link)
+        todo = [(s, o) for (s, o) in zip(lib_sources(), objs) if not os.path.exists(o)]
         if todo:
             with ThreadPoolExecutor(jobs) as ex:
                 res = list(ex.map(lambda so: compile_one(so[0], so[1], flags, incs), todo))
@@ -182,7 +183,7 @@ def build_harness(name, variant="asan", extra_flags=None, link_lib=True):
     exe = os.path.join(bindir, "%s_%s_%s" % (name, variant, key))
     if os.path.exists(exe):
         return exe
-    with Lock("harness-" + name + variant):
+    with Lock("harness-" + name + variant):  # (links against the .so, not against objects)
         if os.path.exists(exe):
             return exe
         cmd = [cxx()] + COMMON + flags + (extra_flags or []) + incs + [src, "-o", exe + ".tmp"]
@@ -196,7 +197,7 @@ def build_harness(name, variant="asan", extra_flags=None, link_lib=True):
     return exe
 
 
-def prune(max_bytes=6 << 30):
+def prune(max_bytes=30 << 30):
     """Keep the cache bounded: drop least recently used objects/libs/bins."""
     ents = []
     for sub in ("obj", "lib", "bin"):
@@ -213,7 +214,10 @@ def prune(max_bytes=6 << 30):
     total = sum(e[1] for e in ents)
     if total <= max_bytes:
         return
+    now = time.time()
     for at, sz, p in sorted(ents):
+        if now - at < 6 * 3600:
+            break           # never remove anything used in the last hours
         try:
             os.remove(p)
         except OSError:
